@@ -11,7 +11,8 @@ void c02_inst_mixed()
     DenseVector<DT, IT> a; DenseVector<DT, IT2> b; DenseVector<DT2, IT> c;
     a.convert(b);   // elements shared, (no) indices converted
     a.convert(c);   // elements converted
-    a.clone(b, CloneMode::Weak);
+    a.clone(b, CloneMode::Weak);   // cross-type clone: same data type, other index type
+    a.clone(c, CloneMode::Weak);   // cross-type clone: other data type, same index type
   }
   {
     SparseMatrixCSR<DT, IT> a; SparseMatrixCSR<DT, IT2> b; SparseMatrixCSR<DT2, IT> c;
